@@ -195,6 +195,21 @@ def transpile(text, dict_compress=True, variables_as_digraphs=False) -> str:
 _code_cache: dict = {}
 
 
+class BoundedOut(io.StringIO):
+    """stdout capture that gives up (Inconclusive: a discard, never a failure) after 8 MB instead of exhausting memory"""
+    LIMIT = 8_000_000
+
+    def __init__(self):
+        super().__init__()
+        self._n = 0
+
+    def write(self, s):
+        self._n += len(s)
+        if self._n > self.LIMIT:
+            raise Inconclusive("output larger than 8 MB")
+        return super().write(s)
+
+
 def exec_py(code_text: str, stack: list, ctx: Context, budget: int = 2_000_000,
             wall: float = 20.0, ns: dict | None = None) -> Result:
     """exec() transpiled text the way main.execute_vyxal does: ONE namespace."""
@@ -211,7 +226,7 @@ def exec_py(code_text: str, stack: list, ctx: Context, budget: int = 2_000_000,
     ns = shared
     ns["stack"] = stack
     ns["ctx"] = ctx
-    buf = io.StringIO()
+    buf = BoundedOut()
     compiled = _code_cache.get(code_text)
     if compiled is None:
         try:
@@ -283,7 +298,7 @@ def run_main(text: str, flags: str = "", inputs=(), budget: int = 3_000_000,
     """Call main.execute_vyxal(text, flags+'e', inputs).  Returns (stdout, exc,
     online_record)."""
     reset_globals()
-    buf = io.StringIO()
+    buf = BoundedOut()
     exc = None
     rec = {1: "", 2: ""} if online else None
     ins = "\n".join(inputs) if online else list(inputs)
